@@ -108,6 +108,7 @@ type gRun struct {
 	appRow   int
 	nodesObj []node
 	rank2    map[string]int
+	zcalls   map[string]int
 }
 
 // rowNames: universe nodes first (scenario order), then every other registered component sorted by name.
@@ -191,6 +192,7 @@ func runGraph(sc *gScen) *gRun {
 		loaders = append(loaders, failLoader{})
 	}
 	var runErr error
+	curEnv = env
 	atomic.StoreInt64(&scanCalls, 0)
 	done := make(chan any, 1)
 	go func() {
@@ -217,7 +219,20 @@ func runGraph(sc *gScen) *gRun {
 	}
 	env.mu.Lock()
 	res.events = append([]string{}, env.events...)
+	res.zcalls = map[string]int{}
+	for k, v := range env.zcalls {
+		res.zcalls[k] = v
+	}
 	env.mu.Unlock()
+	for i, e := range res.events {
+		if strings.HasPrefix(e, "r@") {
+			for zi, zn := range zeroSizeNames {
+				if e == "r@"+zn && zi < sc.zs {
+					res.events[i] = fmt.Sprintf("r%d", res.rowOf[framework_helper.GetComponentName(zeroSizeCtors[zi]())])
+				}
+			}
+		}
+	}
 	if res.status == "err" {
 		res.status = "err." + res.stageOfFailure(tr, names)
 	}
@@ -626,6 +641,21 @@ func (r *gRun) oracles() []string {
 				{fltEarly, "e", "GetEarlyBeanReference"}, {fltRun, "r", "Run"}} {
 				if n.flt&fw.bit != 0 && seen[fmt.Sprintf("%s%d", fw.ev, i)] {
 					add("c09-fault-swallowed", "%s of node %d returned an error, yet Run returned nil", fw.what, i)
+				}
+			}
+		}
+	}
+	// zero-size components are created eagerly like every other component: after a successful start each of their
+	// lifecycle callbacks (and Run, for the runners among them) ran exactly once — identity by address must not conflate them
+	if r.status == "ok" {
+		for zi := 0; zi < r.sc.zs && zi < len(zeroSizeNames); zi++ {
+			for _, cb := range zeroSizeCalls[zeroSizeNames[zi]] {
+				if n := r.zcalls[cb+"@"+zeroSizeNames[zi]]; n != 1 {
+					sig := "c05-zero-size-once"
+					if cb == "r" {
+						sig = "c13-zero-size-once"
+					}
+					add(sig, "callback %s of the zero-size component %s ran %d times in a successful start", cb, zeroSizeNames[zi], n)
 				}
 			}
 		}
